@@ -12,6 +12,7 @@ import (
 	"gedverif/internal/absint"
 	"gedverif/internal/load"
 	"gedverif/internal/oblig"
+	"gedverif/internal/su"
 
 	"golang.org/x/tools/go/ssa"
 )
@@ -450,6 +451,7 @@ func c06Normalise(p *load.Prog, r *oblig.Run) {
 		r.Add("R06.g", "NewDateRange", "-", "anchor").Unknown("NewDateRange / Date not found")
 		return
 	}
+	c06Operands(p, r, nd)
 	ds, _ := dateObj.Type().Underlying().(*types.Struct)
 	flag := -1
 	for i := 0; ds != nil && i < ds.NumFields(); i++ {
@@ -493,5 +495,59 @@ func c06Normalise(p *load.Prog, r *oblig.Run) {
 	}
 	if n != 2 {
 		r.Add("R06.g", "NewDateRange", p.Pos(nd.Pos()), "normalisation").Unknown("result of NewDateRange does not hold two dates")
+	}
+
+}
+
+// c06Operands: the range keeps its operands where the caller put them.
+func c06Operands(p *load.Prog, r *oblig.Run, nd *ssa.Function) {
+	// the range keeps its operands where the caller put them: what is stored as start (end) is the start (end) parameter
+	for idx, side := range []string{"start", "end"} {
+		o := r.Add("R06.g", side+" operand", p.Pos(nd.Pos()), "which operand becomes the range's "+side)
+		bad, found := "", false
+		for _, b := range nd.Blocks {
+			for _, ins := range b.Instrs {
+				st, ok := ins.(*ssa.Store)
+				if !ok {
+					continue
+				}
+				fa, ok := st.Addr.(*ssa.FieldAddr)
+				if !ok || su.FieldName(fa) != side {
+					continue
+				}
+				if ow := su.FieldOwner(fa); ow == nil || ow.Obj().Name() != "DateRange" {
+					continue
+				}
+				found = true
+				// the stored value: a load of the local copy of parameter idx, whose whole-value stores are that parameter only
+				ld, ok := st.Val.(*ssa.UnOp)
+				var al *ssa.Alloc
+				if ok {
+					al, _ = ld.X.(*ssa.Alloc)
+				}
+				if al == nil {
+					if prm, isP := st.Val.(*ssa.Parameter); isP && idx < len(nd.Params) && nd.Params[idx] == prm {
+						continue
+					}
+					bad = "is not the " + side + " parameter (" + st.Val.String() + ")"
+					continue
+				}
+				for _, ref := range *al.Referrers() {
+					if s2, ok := ref.(*ssa.Store); ok && s2.Addr == ssa.Value(al) {
+						if prm, isP := s2.Val.(*ssa.Parameter); !isP || idx >= len(nd.Params) || nd.Params[idx] != prm {
+							bad = "can be a value other than the " + side + " parameter (assigned at " + p.Pos(s2.Pos()) + ")"
+						}
+					}
+				}
+			}
+		}
+		switch {
+		case !found:
+			o.Unknown("no store into DateRange." + side + " in NewDateRange")
+		case bad != "":
+			o.Fail("the " + side + " of the new range " + bad + ": NewDateRange re-orders or replaces its operands (a comparison of partial dates by their mid-point years exchanges the ends of forward-running ranges of mixed precision, together with their constraints)")
+		default:
+			o.OK("the " + side + " parameter")
+		}
 	}
 }
